@@ -1,0 +1,21 @@
+//go:build verif
+
+// Contracts for the deductive verifier in /verif (govc). Comments only.
+
+package header
+
+// A rule's name matches a map key whatever its case.
+//@ pred matchesPrefix(k string, p string) = len(k) >= len(p) && eqFold(k[0:len(p)], p)
+
+// removeHeadersByPrefix (L16.1): afterwards no key whose name starts with the
+// prefix (in any case) remains; every other field is untouched.
+//@ func removeHeadersByPrefix
+//@ property C16
+//@ requires h != nil
+//@ modifies h[*]
+//@ ensures forall k string :: matchesPrefix(k, prefix) ==> !(k in h)
+//@ ensures forall k string :: !matchesPrefix(k, prefix) ==> (k in h) == old(k in h) && h[k] == old(h[k])
+//@ loop 0:
+//@   invariant forall k string :: visited(k) && matchesPrefix(k, prefix) ==> !(k in h)
+//@   invariant forall k string :: !matchesPrefix(k, prefix) ==> (k in h) == old(k in h) && h[k] == old(h[k])
+//@   invariant forall k string :: (k in h) ==> old(k in h)
